@@ -205,6 +205,7 @@ def work(item):
     if fn in SIMPLE:
         fname, fwd, inv, yexp = SIMPLE[fn]
         data = df.spline3(fname, has_nz=(fname == "CS_Energy.dat"))
+        edges_all = df.named3("edges.dat", 1000.0)
         for z in zs:
             case = dict(config=config, fn=fn, Z=z)
             if z not in data or not (1 <= z <= zmax):
@@ -219,7 +220,15 @@ def work(item):
             if tab.nonmono:
                 st.note("nonmonotone_tables", 1)
             rng = random.Random(mix(seed, fn, z))
-            for arg, kind in table_args(tab, rng, frac):
+            args = table_args(tab, rng, frac)
+            if fn in ("CS_Photo", "CS_Rayl", "CS_Compt", "CS_Energy", "Fi", "Fii"):
+                # the absorption-edge energies of the element as a caller obtains them (EdgeEnergy: edges.dat / 1000, as written and as the build
+                # prints it): arguments of their own - the edge knots of the tables are rounded differently, so these are neither knots nor ends
+                for (zz, sh), e in edges_all.items():
+                    if zz == z and e > 0:
+                        for v in {e, xrl.round11(e)}:
+                            args += [(v, "edge-energy"), (v * (1 - 1e-9), "edge-energy"), (v * (1 + 1e-9), "edge-energy")]
+            for arg, kind in args:
                 judge_point(st, fn, lambda a: L.call(fn, z, a), tab, arg, kind, case, ns=lambda a: L.noslot(fn, z, a))
     elif fn == "@interleave":
         # the same tables, visited in an order no per-table sweep produces: consecutive calls share the argument but not the function
